@@ -52,36 +52,58 @@ Init == /\ slots = [i \in 1..N |-> None] /\ mask = [i \in 1..N |-> 0]
         /\ prio = [i \in 1..N |-> 0] /\ maxPrio = PrioDefault /\ sampled = <<>>
 
 ----------------------------------------------------------------------------
-(* add_sample(end): end = "cont" | "term" | "trunc"                           *)
-AddResult(end) ==
-  LET isT   == end = "term"
-      isTr  == end = "trunc"
+(* add_sample(end): the two flags of the stored step                                                              *)
+(*   "cont"  neither flag                 "term"  terminated only                                                 *)
+(*   "trunc" truncated only               "both"  terminated AND truncated on the same step (gymnasium's          *)
+(*           TimeLimit sets truncated on the step that reaches the limit even if the wrapped environment          *)
+(*           terminates on that very step)                                                                        *)
+(* A "both" step is a truncated step: C04 ("never contains a truncated step") demands that no admissible window   *)
+(* reaches it, so the tail of its episode is masked out exactly as for "trunc" - truncation takes precedence     *)
+(* over termination in the end-of-episode bookkeeping; it is a terminated step as well: it makes                  *)
+(* environment_terminates true and the successor row copies both flags.                                           *)
+(* Ends: the kinds Next explores.  A definition, not a CONSTANT (configurations that do not mention it - C08's    *)
+(* and C19's - keep the three single-flag kinds); C04 selects all four by  CONSTANT Ends <- EndsBoth.             *)
+Ends == {"cont", "term", "trunc"}
+EndsBoth == {"cont", "term", "trunc", "both"}
+IsTerm(end) == end \in {"term", "both"}
+IsTrunc(end) == end \in {"trunc", "both"}
+
+(* tailOn: the value the end-of-episode bookkeeping writes for the last min(episode_timesteps, H) steps;          *)
+(* earlyClear: FALSE = the order of the mask statements in the code (clear the written slot, enable the start H   *)
+(* behind, clear the successor row's slot, tail); TRUE is the deviation of canary (d) below                       *)
+AddResultP(end, tailOn, earlyClear) ==
+  LET isT   == IsTerm(end)
+      isTr  == IsTrunc(end)
       row   == [kind |-> "step", ep |-> ep, t |-> epT, term |-> isT, trunc |-> isTr]
       s1    == [slots EXCEPT ![ins + 1] = row]
       len1  == Min(len + 1, N)
       epT1  == epT + 1
-      m1    == [mask EXCEPT ![ins + 1] = 0]
-      (* a start becomes admissible once H further steps of its episode exist *)
-      m2    == IF epT1 > H THEN [m1 EXCEPT ![((ins - H) % N) + 1] = 1] ELSE m1
       ins1  == (ins + 1) % N
+      m0    == [mask EXCEPT ![ins + 1] = 0]
+      m1    == IF earlyClear /\ end # "cont" THEN [m0 EXCEPT ![ins1 + 1] = 0] ELSE m0
+      (* a start becomes admissible once H further steps of its episode exist; at the smallest capacity          *)
+      (* N = H + 1 this slot, (ins - H) % N, IS the slot (ins + 1) % N the successor row goes to                  *)
+      m2    == IF epT1 > H THEN [m1 EXCEPT ![((ins - H) % N) + 1] = 1] ELSE m1
   IN IF end = "cont"
      THEN [slots |-> s1, mask |-> m2, ins |-> ins1, len |-> len1, epT |-> epT1,
            written |-> <<ins>>]
      ELSE
        LET extra == [kind |-> "extra", ep |-> ep, t |-> epT1, term |-> isT, trunc |-> isTr]
            s2    == [s1 EXCEPT ![ins1 + 1] = extra]
-           m3    == [m2 EXCEPT ![ins1 + 1] = 0]
+           m3    == IF earlyClear THEN m2 ELSE [m2 EXCEPT ![ins1 + 1] = 0]
            past  == {((ins1 - k - 1) % N) + 1 : k \in 0..(Min(epT1, H) - 1)}
-           (* tail starts: admissible for a terminated episode, masked out for a truncated one *)
-           m4    == [i \in 1..N |-> IF i \in past THEN (IF isTr THEN 0 ELSE 1) ELSE m3[i]]
+           m4    == [i \in 1..N |-> IF i \in past THEN (IF tailOn THEN 1 ELSE 0) ELSE m3[i]]
        IN [slots |-> s2, mask |-> m4, ins |-> (ins1 + 1) % N, len |-> Min(len1 + 1, N),
            epT |-> 0, written |-> <<ins, ins1>>]
+
+(* tail starts: masked out whenever the final step is truncated ("trunc", "both"), admissible for "term" *)
+AddResult(end) == AddResultP(end, ~IsTrunc(end), FALSE)
 
 Add(end) ==
   /\ adds < MaxAdds
   /\ LET r == AddResult(end) IN
        /\ slots' = r.slots /\ mask' = r.mask /\ ins' = r.ins /\ len' = r.len /\ epT' = r.epT
-       /\ envTerm' = (envTerm \/ end = "term")
+       /\ envTerm' = (envTerm \/ IsTerm(end))
        /\ ep' = IF end = "cont" THEN ep ELSE ep + 1
        /\ adds' = adds + 1
        (* prioritized variant: every newly written row gets the current maximum priority *)
@@ -158,7 +180,7 @@ ResetMax ==
   /\ UNCHANGED <<slots, mask, ins, len, epT, envTerm, ep, adds, prio, sampled>>
   /\ Emit("ResetMax", <<>>, <<>>)
 
-Next == \/ \E e \in {"cont", "term", "trunc"} : Add(e)
+Next == \/ \E e \in Ends : Add(e)
         \/ \E s \in Starts, h \in 1..H, inter \in BOOLEAN : Sample(s, h, inter)
         \/ SampleNone
         \/ \E t \in TickVectors, h \in 1..H, inter \in BOOLEAN : SamplePrio(t, h, inter)
@@ -218,6 +240,30 @@ AddTruncTailOn(end) ==
   /\ adds' = adds + 1
   /\ UNCHANGED <<prio, maxPrio, sampled>>
 NextBadTrunc == \E e \in {"cont", "term", "trunc"} : AddTruncTailOn(e)
+
+(* (c) termination takes precedence over truncation in the end-of-episode bookkeeping: the tail of an episode   *)
+(* whose final step is terminated and truncated at once is left admissible                                       *)
+AddTermWins(end) ==
+  /\ adds < MaxAdds
+  /\ LET r == AddResultP(end, IsTerm(end), FALSE)
+     IN slots' = r.slots /\ mask' = r.mask /\ ins' = r.ins /\ len' = r.len /\ epT' = r.epT
+  /\ envTerm' = (envTerm \/ IsTerm(end))
+  /\ ep' = IF end = "cont" THEN ep ELSE ep + 1
+  /\ adds' = adds + 1
+  /\ UNCHANGED <<prio, maxPrio, sampled>>
+NextBadBoth == \E e \in EndsBoth : AddTermWins(e)
+
+(* (d) both written slots invalidated up front, before the start H behind is enabled: at N = H + 1 the successor *)
+(* row of an episode longer than H stays an admissible start                                                     *)
+AddEarlyClear(end) ==
+  /\ adds < MaxAdds
+  /\ LET r == AddResultP(end, ~IsTrunc(end), TRUE)
+     IN slots' = r.slots /\ mask' = r.mask /\ ins' = r.ins /\ len' = r.len /\ epT' = r.epT
+  /\ envTerm' = (envTerm \/ IsTerm(end))
+  /\ ep' = IF end = "cont" THEN ep ELSE ep + 1
+  /\ adds' = adds + 1
+  /\ UNCHANGED <<prio, maxPrio, sampled>>
+NextBadEarlyClear == \E e \in EndsBoth : AddEarlyClear(e)
 
 (* (b) windows wrapped modulo capacity instead of modulo current length *)
 WindowBadMod(s, h) == [k \in 1..h |-> slots[((s + (k - 1)) % N) + 1]]
